@@ -422,10 +422,12 @@ async fn run_task<F: Family>(ctx: Arc<SS<Ctx<F>>>, t: usize) -> u32 {
             GOp::Spawn(ch) => {
                 let ctx2 = ctx.clone();
                 let ch = *ch;
-                let h = shuttle::future::spawn(SendFut(Logged {
+                let fut = SendFut(Logged {
                     fut: run_task::<F>(ctx2, ch),
                     _g: FutureDropLog(ch),
-                }));
+                });
+                // "-alt" sets: the sibling entry points (spawn_local, AbortHandle)
+                let h = if alt_api() { shuttle::future::spawn_local(fut) } else { shuttle::future::spawn(fut) };
                 c.ahandles.borrow_mut()[ch] = Some(h);
                 GRes::Spawned
             }
@@ -442,7 +444,11 @@ async fn run_task<F: Family>(ctx: Arc<SS<Ctx<F>>>, t: usize) -> u32 {
             GOp::Abort(ch) => {
                 // take the handle out while aborting (abort has a scheduling point)
                 let h = c.ahandles.borrow_mut()[*ch].take().expect("abort without handle");
-                h.abort();
+                if alt_api() {
+                    h.abort_handle().abort();
+                } else {
+                    h.abort();
+                }
                 c.ahandles.borrow_mut()[*ch] = Some(h);
                 GRes::Unit
             }
@@ -452,7 +458,9 @@ async fn run_task<F: Family>(ctx: Arc<SS<Ctx<F>>>, t: usize) -> u32 {
                 GRes::Unit
             }
             GOp::IsFinished(ch) => {
-                let b = c.ahandles.borrow()[*ch].as_ref().expect("is_finished without handle").is_finished();
+                let hs = c.ahandles.borrow();
+                let h = hs[*ch].as_ref().expect("is_finished without handle");
+                let b = if alt_api() { h.abort_handle().is_finished() } else { h.is_finished() };
                 GRes::Bool(b)
             }
             GOp::Op(o) => GRes::R(F::exec_async(&c.objs, &mut locals, t, o).await),
